@@ -62,7 +62,10 @@ func c14Push(c *core.Ctx) {
 		if accept[id%mod] {
 			return nil
 		}
-		e := fmt.Errorf("value %d rejected", id)
+		var e error = fmt.Errorf("value %d rejected", id)
+		if id%3 == 1 {
+			e = listErr{"value", fmt.Sprint(id), "rejected"} // an error of an uncomparable type (identified by content)
+		}
 		errs[id] = e
 		return e
 	}
@@ -175,7 +178,7 @@ func c14Push(c *core.Ctx) {
 			}
 			c.Count("rejections")
 		}
-		if got := s.Err(); wantErrSet && got != wantErr {
+		if got := s.Err(); wantErrSet && !sameErr(got, wantErr) {
 			c.Violatef("err-not-reported", desc(), "Err()=%v after the policy rejected with %v", got, wantErr)
 			return
 		} else if !wantErrSet && got != nil {
@@ -206,6 +209,25 @@ func c14Push(c *core.Ctx) {
 		c.Sample(desc())
 	}
 }
+
+// sameErr: identity for comparable error values, content for the others.
+func sameErr(a, b error) bool {
+	if a == nil || b == nil {
+		return a == nil && b == nil
+	}
+	if reflect.TypeOf(a) != reflect.TypeOf(b) {
+		return false
+	}
+	if reflect.TypeOf(a).Comparable() {
+		return a == b
+	}
+	return a.Error() == b.Error()
+}
+
+// listErr is an error whose type is not comparable.
+type listErr []string
+
+func (l listErr) Error() string { return strings.Join(l, " ") }
 
 // ---- install/remove sequences of the other closures
 
@@ -242,6 +264,12 @@ func c14Closures(c *core.Ctx) {
 	vErr := errors.New("validity closure says no")
 	eErr := errors.New("equality closure says no")
 	mErr := errors.New("marshal closure says no")
+	mkEq := func(hits map[string]int, e error) stackage.EqualityPolicy {
+		return func(a, b any) error { hits["equal"]++; return e }
+	}
+	mkMa := func(hits map[string]int, e error) stackage.Marshaler {
+		return func(...any) error { hits["marshal"]++; return e }
+	}
 	uOut := []any{"CUSTOM", 1}
 	var installed struct{ vp, vpReject, pp, eq, um, ma bool }
 	maNil := false
@@ -281,7 +309,8 @@ func c14Closures(c *core.Ctx) {
 			installed.pp = false
 			log = append(log, "SetPresentationPolicy(nil)")
 		case 4:
-			s.SetEqualityPolicy(func(a, b any) error { hits["equal"]++; return eErr })
+			eErr = fmt.Errorf("equality closure #%d says no", step) // a NEW closure from the same literal, with its own result
+			s.SetEqualityPolicy(mkEq(hits, eErr))
 			installed.eq = true
 			log = append(log, "SetEqualityPolicy(f)")
 		case 5:
@@ -312,7 +341,8 @@ func c14Closures(c *core.Ctx) {
 				// a closure that reports success although the receiver picked up an error while it ran
 				s.SetMarshaler(func(...any) error { hits["marshal"]++; s.SetErr(vErr); return nil })
 			} else {
-				s.SetMarshaler(func(...any) error { hits["marshal"]++; return mErr })
+				mErr = fmt.Errorf("marshal closure #%d says no", step)
+				s.SetMarshaler(mkMa(hits, mErr))
 			}
 			installed.ma = true
 			log = append(log, "SetMarshaler(f)")
